@@ -36,6 +36,7 @@ CATALOGUE_QUICK = [
     [('x', [N(2), ('s', 0, N(1), 1)])],                      # one-hot inside a product
     [N(1), ('x', [N(1), N(2)])],                             # unit axes
     [N(0), N(2)],                                            # an empty index set
+    [('x', [('u', [N(1), N(1)]), N(2)])],                    # a disjoint union INSIDE a product: failure found at factor level
 ]
 CATALOGUE_THOROUGH = CATALOGUE_QUICK + [
     [('x', [N(2), N(2), N(2)])],                             # 8 = 2x2x2 = 4x2 = 2x4
@@ -53,11 +54,12 @@ def _gen_tlc(work, catalogue, shared, o: Outcome, cap):
     shapes = [[_ty(t, keys) for t in sh] for sh in catalogue]
     cfg = (f'INIT Init\nNEXT Next\nCONSTANTS K = 2\nShared = {"TRUE" if shared else "FALSE"}\n'
            'INVARIANT TermsHaveTheSizeOfTheirType\nINVARIANT TypedListsArePatterns\nINVARIANT SolutionsAreTheCommonSupport\n'
+           'INVARIANT ModelUnifierIsMostGeneral\n'
            'INVARIANT Dump\nCHECK_DEADLOCK FALSE\n')
     w = work / ('gen_sh' if shared else 'gen_dj')
     prepare_workdir(w)
     (w / 'shapes.json').write_text(json.dumps(shapes))
-    r = run_tlc(w, 'MC_AxisAlg', cfg, workers=1, heap='4g')
+    r = run_tlc(w, 'MC_AxisAlg', cfg, workers=4, heap='4g')
     o.add_tlc(r)
     pairs = [p for p in r.printed if isinstance(p, dict) and 'es' in p]
     o.extra['axis_pairs_enumerated_' + ('shared' if shared else 'disjoint')] = len(pairs)
@@ -255,5 +257,6 @@ def run_part(o: Outcome, tier, seed, work):
     for c in cases:
         kinds[c['kind']] = kinds.get(c['kind'], 0) + 1
     o.extra['axis_algebra_cases'] = kinds
+    o.extra['unify_model_drift'] = sum(1 for v in verdicts.values() if v.get('drift', 'none') != 'none')
     o.extra['axis_algebra_unify_failures_observed'] = sum(1 for c in cases if c['kind'] == 'unify' and c['out'] == 'ok' and not c['ok'])
     return cases
